@@ -208,17 +208,19 @@ fn range_contains(range: &ast::Range, line_col: (usize, usize)) -> bool {
 
 /// Traverse the AST and provide the types to the given closure
 pub fn walk_types<F: FnMut(&ast::Type)>(ast: &ast::Aidl, mut f: F) {
-    let mut visit_type_helper = move |type_: &ast::Type| {
+    fn visit_type<F: FnMut(&ast::Type)>(type_: &ast::Type, f: &mut F) {
         if type_.kind == ast::TypeKind::Array {
             // For arrays, start with the array element type, then on the array itself
-            type_.generic_types.iter().for_each(&mut f);
+            type_.generic_types.iter().for_each(|t| visit_type(t, f));
             f(type_);
         } else {
             // For other types, start with the main type and then its generic types
             f(type_);
-            type_.generic_types.iter().for_each(&mut f);
+            type_.generic_types.iter().for_each(|t| visit_type(t, f));
         }
-    };
+    }
+
+    let mut visit_type_helper = move |type_: &ast::Type| visit_type(type_, &mut f);
 
     match ast.item {
         ast::Item::Interface(ref i) => {
